@@ -209,6 +209,58 @@ pub fn edit_signed(signed: &mut Value, field: &str, scn: &Value, rng: &mut impl 
             true
         }
         "env_key" if is_link => obj_rename(&mut signed["environment"], 0, &|k| format!("{k}_")),
+        // fold all members of a string map into ONE member whose name spells `":"` and `","`
+        "env_fold" | "byp_fold" if is_link => {
+            let which = if field == "env_fold" { "environment" } else { "byproducts" };
+            let o = match signed[which].as_object() {
+                Some(o) => o.clone(),
+                None => return false,
+            };
+            let strs: Vec<(String, String)> = o.iter().filter_map(|(k, v)| v.as_str().map(|x| (k.clone(), x.to_string()))).collect();
+            if strs.len() < 2 {
+                return false;
+            }
+            let mut name = String::new();
+            for (n, (k, v)) in strs.iter().enumerate() {
+                if n + 1 < strs.len() {
+                    name.push_str(&format!("{k}\":\"{v}\",\""));
+                } else {
+                    name.push_str(k);
+                }
+            }
+            let last = strs.last().unwrap().1.clone();
+            let m = signed[which].as_object_mut().unwrap();
+            for (k, _) in &strs {
+                m.remove(k);
+            }
+            m.insert(name, json!(last));
+            true
+        }
+        "command_fold" if is_link => {
+            let a: Vec<String> = signed["command"].as_array().unwrap().iter().map(|x| x.as_str().unwrap_or("").to_string()).collect();
+            if a.len() < 2 {
+                return false;
+            }
+            signed["command"] = json!([a.join("\",\"")]);
+            true
+        }
+        // two artifact entries folded into one path that spells the boundary and the first description
+        "paths_fold" if is_link => {
+            let o = signed["products"].as_object().unwrap().clone();
+            if o.len() < 2 {
+                return false;
+            }
+            let items: Vec<(String, Value)> = o.into_iter().collect();
+            let (k1, v1) = &items[0];
+            let (k2, v2) = &items[1];
+            let inner = v1.to_string();
+            let name = format!("{k1}\":{inner},\"{k2}");
+            let m = signed["products"].as_object_mut().unwrap();
+            m.remove(k1);
+            m.remove(k2);
+            m.insert(name, v2.clone());
+            true
+        }
         // ---- layout fields
         "readme" if !is_link => {
             bump_str(&mut signed["readme"]);
@@ -365,6 +417,7 @@ impl Ctx {
         let mut first_signer = String::new();
         let mut note = json!({});
         let mut out = "none".to_string();
+        let mut wire_fmt = String::new();
         let signer_names: Vec<String> = scn["ops"][0]["signers"].as_array().unwrap().iter().map(|x| x.as_str().unwrap().to_string()).collect();
         let km = &self.km;
         let pos_of = |b: &Metablock, i: usize| -> usize {
@@ -386,9 +439,27 @@ impl Ctx {
                 }
                 "write" => {
                     let b = block.as_ref().unwrap();
-                    text = if op["fmt"] == "pretty" { serde_json::to_string_pretty(b).unwrap() } else { serde_json::to_string(b).unwrap() };
+                    use in_toto::interchange::{DataInterchange, Json, JsonPretty};
+                    let mut buf = vec![];
+                    text = match op["fmt"].as_str().unwrap() {
+                        "pretty" => serde_json::to_string_pretty(b).unwrap(),
+                        "cjson" => {
+                            Json::to_writer(&mut buf, b).unwrap();
+                            String::from_utf8(buf).unwrap()
+                        }
+                        "cjson_pretty" => {
+                            JsonPretty::to_writer(&mut buf, b).unwrap();
+                            String::from_utf8(buf).unwrap()
+                        }
+                        _ => serde_json::to_string(b).unwrap(),
+                    };
+                    wire_fmt = op["fmt"].as_str().unwrap().to_string();
                 }
-                "read" => match serde_json::from_str::<Metablock>(&text) {
+                "read" => match if wire_fmt.starts_with("cjson") {
+                    <in_toto::interchange::Json as in_toto::interchange::DataInterchange>::from_slice::<Metablock>(text.as_bytes()).map_err(|e| e.to_string())
+                } else {
+                    serde_json::from_str::<Metablock>(&text).map_err(|e| e.to_string())
+                } {
                     Ok(b) => {
                         if Some(&b) != block.as_ref() {
                             note["read_differs"] = json!(true);
